@@ -11,6 +11,8 @@ import (
 	"fmt"
 	"io"
 	"math/rand"
+	"net/http/httptest"
+	"net/url"
 	"os"
 	"path"
 	"sort"
@@ -23,6 +25,7 @@ import (
 	"github.com/tikv/pd/pkg/btree"
 	"github.com/tikv/pd/pkg/codec"
 	"github.com/tikv/pd/pkg/mock/mockid"
+	"github.com/tikv/pd/server/api"
 	"github.com/tikv/pd/server/cluster"
 	"github.com/tikv/pd/server/config"
 	"github.com/tikv/pd/server/core"
@@ -34,6 +37,7 @@ import (
 	"pdverif/internal/coqfmt"
 	"pdverif/internal/res"
 	"pdverif/internal/rng"
+	"pdverif/internal/srv15"
 )
 
 // ---------------------------------------------------------------------------------------------
@@ -1509,6 +1513,67 @@ func (g *riGen) roleFlips(flips int) string {
 	}
 }
 
+// apiLookups (driver-side oracle on a real PD server, through the real api.NewHandler router): regions whose boundaries separate keys
+// that differ only in a blank / '+' / '%' / '/' byte are put by heartbeats; GET /pd/api/v1/region/key/{key} with the key escaped the way
+// pd-ctl does it (url.QueryEscape) must answer the region the lookup by key (RaftCluster.GetRegionByKey = the C07 `search`) gives.
+func apiLookups() (viol string, trace []string, note string) {
+	x, err := srv15.Start()
+	if err != nil {
+		return "", nil, "server did not start: " + err.Error()
+	}
+	defer x.Close()
+	if err := x.Bootstrap(); err != nil {
+		return "", nil, "bootstrap failed: " + err.Error()
+	}
+	for end := time.Now().Add(10 * time.Second); time.Now().Before(end); time.Sleep(5 * time.Millisecond) {
+		if rc := x.S.GetRaftCluster(); rc != nil && rc.IsRunning() {
+			break
+		}
+	}
+	rc := x.S.GetRaftCluster()
+	if rc == nil {
+		return "", nil, "the raft cluster did not start"
+	}
+	h, _, err := api.NewHandler(context.Background(), x.S)
+	if err != nil {
+		return "", nil, "api.NewHandler: " + err.Error()
+	}
+	bounds := []string{"", "a!", "a,", "a0", "b", "b c", "b+c", "c%2", "c/d", "d", ""}
+	for i := 0; i+1 < len(bounds); i++ {
+		id := uint64(100 + i)
+		if i == 0 {
+			id = 2 // the bootstrap region
+		}
+		r := c07x.Region{ID: id, Start: bounds[i], End: bounds[i+1], Peers: []c07x.Peer{{ID: id*10 + 1, Store: 1}}, Leader: id*10 + 1, Size: 5, Ver: 2, ConfVer: 1, Term: 1, Stamp: int64(i + 1)}
+		if id == 2 {
+			r.Peers, r.Leader = []c07x.Peer{{ID: 3, Store: 1}}, 3
+		}
+		if err := rc.VerifC06ProcessRegionHeartbeat(core.RegionFromHeartbeat(r.Heartbeat())); err != nil {
+			return "", trace, fmt.Sprintf("heartbeat of region %d rejected: %v", id, err)
+		}
+	}
+	for _, key := range []string{"a", "a b", "a+b", "a b+", "a%20b", "b c", "b+c", "b c d", "b  c", "c%2", "c%2B", "c/d", "c/e", "c d", "z z", "+", " ", "d+", "a!", "a,"} {
+		want := rc.GetRegionByKey([]byte(key))
+		req := httptest.NewRequest("GET", "/pd/api/v1/region/key/"+url.QueryEscape(key), nil)
+		rec := httptest.NewRecorder()
+		h.ServeHTTP(rec, req)
+		var got struct {
+			ID       uint64 `json:"id"`
+			StartKey string `json:"start_key"`
+		}
+		_ = json.Unmarshal(rec.Body.Bytes(), &got)
+		trace = append(trace, fmt.Sprintf("GET /region/key/%s (key %q) -> %d, region %d", url.QueryEscape(key), key, rec.Code, got.ID))
+		if want == nil || rec.Code != 200 || got.ID != want.GetID() {
+			w := uint64(0)
+			if want != nil {
+				w = want.GetID()
+			}
+			return "C07:region-by-key-api-differs-from-the-lookup", append(trace, fmt.Sprintf("key %q lies in region %d [%q,%q); the API answered region %d (status %d)", key, w, want.GetStartKey(), want.GetEndKey(), got.ID, rec.Code)), ""
+		}
+	}
+	return "", trace, ""
+}
+
 // bigTreeReaders: a region tree with inner nodes (more regions than one btree node of degree 64 holds), then scans through
 // ScanRangeWithIterator whose iterator looks up a key far away (re-entrant reader: deterministic witness for read paths that
 // share state), ordinary lookups, and the concurrent readers.
@@ -1808,6 +1873,17 @@ func main() {
 				emitBT(genBT(master.Fork(uint64(2000000+k)), d, 20000, 3000, 2500))
 			}
 		}
+	}
+	if *replay == "" {
+		// last: the real server sets up its own global logger
+		v, trace, note := apiLookups()
+		if v != "" {
+			R.Violate(v, "a real PD server, HTTP API through api.NewHandler: "+trace[len(trace)-1], map[string]interface{}{"trace": trace})
+		}
+		if note != "" {
+			R.Notes = append(R.Notes, "API lookup phase incomplete (machinery, not a verdict): "+note)
+		}
+		R.Count("phase:api-lookups-on-a-real-server")
 	}
 	if err := cf.Flush(); err != nil {
 		panic(err)
